@@ -622,6 +622,86 @@ Section TypedProofs.
     get_key F k j = None -> from_json (TOption t) (or_null F (get_key F k j)) = Ok RNone.
   Proof. intro H. rewrite H. reflexivity. Qed.
 
+  (* ---- from_json on an ARBITRARY JSON value: a value of the type or TypeError, never a panic ---- *)
+  Definition good_from (t : ty) (j : value) : Prop :=
+    (exists v, from_json t j = Ok v /\ has_type v t) \/ from_json t j = Err E_TYPE.
+
+  Lemma clamp_range (lo hi z : Z) : (lo <= hi)%Z -> (lo <= clamp lo hi z <= hi)%Z.
+  Proof.
+    intro H. unfold clamp. destruct (z <? lo)%Z eqn:E1; [lia|]. apply Z.ltb_ge in E1.
+    destruct (hi <? z)%Z eqn:E2; [lia|]. apply Z.ltb_ge in E2. lia.
+  Qed.
+
+  Lemma int_range_nonempty (bits : N) (sg : bool) : 0 < bits -> (int_lo bits sg <= int_hi bits sg)%Z.
+  Proof.
+    intro H. unfold int_lo, int_hi. destruct sg.
+    - assert (0 < 2 ^ (Z.of_N bits - 1))%Z by (apply Z.pow_pos_nonneg; lia). lia.
+    - assert (0 < 2 ^ Z.of_N bits)%Z by (apply Z.pow_pos_nonneg; lia). lia.
+  Qed.
+
+  Lemma variant_index_bound (s : str) (names : list (str * option str)) : forall k i,
+    variant_index s names k = Some i -> (k <= i < k + length names)%nat.
+  Proof.
+    induction names as [|n r IH]; intros k i H; [discriminate|].
+    cbn [variant_index] in H. destruct (str_eqb (variant_name n) s).
+    - inversion H; subst. cbn [length]. lia.
+    - apply IH in H. cbn [length]. lia.
+  Qed.
+
+  Theorem from_json_total (t : ty) : ints_ok t -> forall j, good_from t j.
+  Proof.
+    unfold good_from.
+    induction t as [| | | | |t' IH|t' IH|fs IH|ts IH|names] using ty_ind'; intros Hi j.
+    - destruct j; cbn; try (right; reflexivity). left. eexists. split; [reflexivity|exact I].
+    - destruct j; cbn [JsonTyped.from_json]; try (right; reflexivity). left. eexists. split; [reflexivity|].
+      cbn. apply clamp_range. apply int_range_nonempty. exact Hi.
+    - destruct j; cbn; try (right; reflexivity). left. eexists. split; [reflexivity|exact I].
+    - destruct j; cbn; try (right; reflexivity). left. eexists. split; [reflexivity|exact I].
+    - destruct j; cbn; try (right; reflexivity). left. eexists. split; [reflexivity|exact I].
+    - (* Option *)
+      cbn [ints_ok] in Hi. specialize (IH Hi).
+      assert (H : forall j', j' <> VNull ->
+                  (exists v, match from_json t' j' with Ok v => Ok (RSome v) | Err e => Err e | Crash w => Crash w end = Ok v
+                             /\ has_type v (TOption t')) \/
+                  match from_json t' j' with Ok v => Ok (RSome v) | Err e => Err e | Crash w => Crash w end = Err E_TYPE).
+      { intros j' _. destruct (IH j') as [(v & E & Hv)|E]; rewrite E; [left; eexists; split; [reflexivity|exact Hv]|right; reflexivity]. }
+      destruct j; cbn [JsonTyped.from_json]; try (apply H; discriminate).
+      left. eexists. split; [reflexivity|exact I].
+    - (* Vec *)
+      cbn [ints_ok] in Hi. specialize (IH Hi). rewrite from_json_vec.
+      destruct j; try (right; reflexivity).
+      assert (H : (exists vs, vec_from t' l = Ok vs /\ Forall (fun x => has_type x t') vs) \/ vec_from t' l = Err E_TYPE).
+      { induction l as [|x r IHr]; [left; exists []; split; [reflexivity|constructor]|].
+        cbn [vec_from]. destruct (IH x) as [(v & E & Hv)|E]; rewrite E; [|right; reflexivity].
+        destruct IHr as [(vs & E2 & Hvs)|E2]; rewrite E2; [|right; reflexivity].
+        left. exists (v :: vs). split; [reflexivity|constructor; assumption]. }
+      destruct H as [(vs & E & Hvs)|E]; rewrite E; [left; eexists; split; [reflexivity|exact Hvs]|right; reflexivity].
+    - (* named struct *)
+      rewrite from_json_struct.
+      assert (H : (exists vs, fields_from fs j = Ok vs /\ has_type_fields fs vs) \/ fields_from fs j = Err E_TYPE).
+      { cbn [ints_ok] in Hi. induction fs as [|[[id rn] t'] r IHr]; [left; exists []; split; [reflexivity|exact I]|].
+        inversion IH as [|? ? Hf Hr]; subst. destruct Hi as [Hi1 Hi2]. cbn [field_ty snd] in Hf.
+        cbn [fields_from field_ty field_key fst snd].
+        destruct (Hf Hi1 (or_null F (get_key F (field_key (id, rn, t')) j))) as [(v & E & Hv)|E]; rewrite E; [|right; reflexivity].
+        destruct (IHr Hr Hi2) as [(vs & E2 & Hvs)|E2]; rewrite E2; [|right; reflexivity].
+        left. exists (v :: vs). split; [reflexivity|]. cbn [has_type_fields field_ty snd]. split; assumption. }
+      destruct H as [(vs & E & Hvs)|E]; rewrite E; [left; eexists; split; [reflexivity|apply has_type_struct; exact Hvs]|right; reflexivity].
+    - (* tuple struct *)
+      rewrite from_json_tuple. destruct (negb _); [right; reflexivity|].
+      assert (H : forall i, (exists vs, tuple_from ts i j = Ok vs /\ has_type_tuple ts vs) \/ tuple_from ts i j = Err E_TYPE).
+      { cbn [ints_ok] in Hi. induction ts as [|t' r IHr]; intro i; [left; exists []; split; [reflexivity|exact I]|].
+        inversion IH as [|? ? Hf Hr]; subst. destruct Hi as [Hi1 Hi2].
+        cbn [tuple_from].
+        destruct (Hf Hi1 (or_null F (get_idx F i j))) as [(v & E & Hv)|E]; rewrite E; [|right; reflexivity].
+        destruct (IHr Hr Hi2 (S i)) as [(vs & E2 & Hvs)|E2]; rewrite E2; [|right; reflexivity].
+        left. exists (v :: vs). split; [reflexivity|]. cbn [has_type_tuple]. split; assumption. }
+      destruct (H 0%nat) as [(vs & E & Hvs)|E]; rewrite E; [left; eexists; split; [reflexivity|apply has_type_tuple_eq; exact Hvs]|right; reflexivity].
+    - (* enum *)
+      destruct j; cbn [JsonTyped.from_json]; try (right; reflexivity).
+      destruct (variant_index s names 0) as [i|] eqn:E; [|right; reflexivity].
+      left. eexists. split; [reflexivity|]. cbn. apply variant_index_bound in E. lia.
+  Qed.
+
   (* ---- F27: Some(None) is read back as None, for every instance of the casts ---- *)
   Theorem nested_option_lossy (t : ty) :
     from_json (TOption (TOption t)) (to_json (TOption (TOption t)) (RSome RNone)) = Ok RNone.
